@@ -16,7 +16,7 @@ package cdata
 //@   requires len(loc) <= len(nd.OffsetStep)
 //@   requires 0 <= nd.Start + idot(loc, nd.OffsetStep, len(loc)) && nd.Start + idot(loc, nd.OffsetStep, len(loc)) < nd.Impl.buflen
 //@   assigns nothing
-//@   ensures [C03.get-address] r == nd.Impl[nd.Start + idot(loc, nd.OffsetStep, len(loc))]
+//@   ensures [C03.get-address,C01.get-address] r == nd.Impl[nd.Start + idot(loc, nd.OffsetStep, len(loc))]
 
 //@ func (*nd{t}C).Set(nd, loc, val)
 //@   safety C03
@@ -24,8 +24,8 @@ package cdata
 //@   requires nd.Impl.id != nd.OffsetStep.id && nd.Impl.id != loc.id
 //@   requires 0 <= nd.Start + idot(loc, nd.OffsetStep, len(loc)) && nd.Start + idot(loc, nd.OffsetStep, len(loc)) < nd.Impl.buflen
 //@   assigns nd.Impl[*]
-//@   ensures [C03.set-footprint] nd.Impl[nd.Start + idot(loc, nd.OffsetStep, len(loc))] == val && forall(p, 0, nd.Impl.buflen, implies(p != nd.Start + idot(loc, nd.OffsetStep, len(loc)), nd.Impl[p] == old(nd.Impl[p])))
-//@   ensures [C03.set-header-untouched] nd.Start == old(nd.Start) && nd.OffsetStep == old(nd.OffsetStep) && nd.Dims == old(nd.Dims) && nd.Impl == old(nd.Impl)
+//@   ensures [C03.set-footprint,C01.set-footprint] nd.Impl[nd.Start + idot(loc, nd.OffsetStep, len(loc))] == val && forall(p, 0, nd.Impl.buflen, implies(p != nd.Start + idot(loc, nd.OffsetStep, len(loc)), nd.Impl[p] == old(nd.Impl[p])))
+//@   ensures [C03.set-header-untouched,C01.set-header-untouched] nd.Start == old(nd.Start) && nd.OffsetStep == old(nd.OffsetStep) && nd.Dims == old(nd.Dims) && nd.Impl == old(nd.Impl)
 
 //@ func (*nd{t}C).Slice(nd, loc, dims, step) returns (r)
 //@   locals result
@@ -36,12 +36,12 @@ package cdata
 //@   fresh r
 //@   dyntype r nd{t}C
 //@   assigns nothing
-//@   ensures [C03.slice-fresh-strides] fresh(as(r, nd{t}C).OffsetStep)
-//@   ensures [C03.slice-shares] as(r, nd{t}C).Impl == nd.Impl
-//@   ensures [C03.slice-start] as(r, nd{t}C).Start == nd.Start + idot(loc, nd.OffsetStep, len(loc))
-//@   ensures [C03.slice-stride] len(as(r, nd{t}C).OffsetStep) == len(nd.OffsetStep) && forall(k, 0, len(nd.OffsetStep), as(r, nd{t}C).OffsetStep[k] == nd.OffsetStep[k] * ite(step == nil, 1, step[k]))
-//@   ensures [C03.slice-header] as(r, nd{t}C).Dims == dims && as(r, nd{t}C).OriginalDims == nd.OriginalDims && len(as(r, nd{t}C).Offset) == len(nd.Offset) && len(as(r, nd{t}C).Step) == len(nd.Step)
-//@   ensures [C03.slice-wf] forall(k, 0, len(nd.OffsetStep), as(r, nd{t}C).Offset[k] == nd.Offset[k] && as(r, nd{t}C).Step[k] == nd.Step[k] * ite(step == nil, 1, step[k]) && as(r, nd{t}C).OffsetStep[k] == as(r, nd{t}C).Offset[k]*as(r, nd{t}C).Step[k])
+//@   ensures [C03.slice-fresh-strides,C01.slice-fresh-strides] fresh(as(r, nd{t}C).OffsetStep)
+//@   ensures [C03.slice-shares,C01.slice-shares] as(r, nd{t}C).Impl == nd.Impl
+//@   ensures [C03.slice-start,C01.slice-start] as(r, nd{t}C).Start == nd.Start + idot(loc, nd.OffsetStep, len(loc))
+//@   ensures [C03.slice-stride,C01.slice-stride] len(as(r, nd{t}C).OffsetStep) == len(nd.OffsetStep) && forall(k, 0, len(nd.OffsetStep), as(r, nd{t}C).OffsetStep[k] == nd.OffsetStep[k] * ite(step == nil, 1, step[k]))
+//@   ensures [C03.slice-header,C01.slice-header] as(r, nd{t}C).Dims == dims && as(r, nd{t}C).OriginalDims == nd.OriginalDims && len(as(r, nd{t}C).Offset) == len(nd.Offset) && len(as(r, nd{t}C).Step) == len(nd.Step)
+//@   ensures [C03.slice-wf,C01.slice-wf] forall(k, 0, len(nd.OffsetStep), as(r, nd{t}C).Offset[k] == nd.Offset[k] && as(r, nd{t}C).Step[k] == nd.Step[k] * ite(step == nil, 1, step[k]) && as(r, nd{t}C).OffsetStep[k] == as(r, nd{t}C).Offset[k]*as(r, nd{t}C).Step[k])
 
 //@ func (*nd{t}C).Set1(nd, loc, val)
 //@   safety C03
@@ -49,7 +49,7 @@ package cdata
 //@   requires len(nd.OffsetStep) >= 1
 //@   requires 0 <= nd.Start + loc*nd.OffsetStep[0] && nd.Start + loc*nd.OffsetStep[0] < nd.Impl.buflen
 //@   assigns nd.Impl[*]
-//@   ensures [C03.set1-footprint] nd.Impl[nd.Start + loc*nd.OffsetStep[0]] == val && forall(p, 0, nd.Impl.buflen, implies(p != nd.Start + loc*nd.OffsetStep[0], nd.Impl[p] == old(nd.Impl[p])))
+//@   ensures [C03.set1-footprint,C01.set1-footprint] nd.Impl[nd.Start + loc*nd.OffsetStep[0]] == val && forall(p, 0, nd.Impl.buflen, implies(p != nd.Start + loc*nd.OffsetStep[0], nd.Impl[p] == old(nd.Impl[p])))
 
 //@ func (*nd{t}C).Get1(nd, loc) returns (r)
 //@   locals idx, i@loop
@@ -57,7 +57,7 @@ package cdata
 //@   requires len(nd.Dims) == 1 && len(nd.OffsetStep) >= 1
 //@   requires 0 <= nd.Start + loc*nd.OffsetStep[0] && nd.Start + loc*nd.OffsetStep[0] < nd.Impl.buflen
 //@   assigns nothing
-//@   ensures [C03.get1-address] r == nd.Impl[nd.Start + loc*nd.OffsetStep[0]]
+//@   ensures [C03.get1-address,C01.get1-address] r == nd.Impl[nd.Start + loc*nd.OffsetStep[0]]
 
 //@ func (*nd{t}C).Set2(nd, loc1, loc2, val)
 //@   safety C03
@@ -65,14 +65,14 @@ package cdata
 //@   requires len(nd.OffsetStep) >= 2
 //@   requires 0 <= nd.Start + loc1*nd.OffsetStep[0] + loc2*nd.OffsetStep[1] && nd.Start + loc1*nd.OffsetStep[0] + loc2*nd.OffsetStep[1] < nd.Impl.buflen
 //@   assigns nd.Impl[*]
-//@   ensures [C03.set2-footprint] nd.Impl[nd.Start + loc1*nd.OffsetStep[0] + loc2*nd.OffsetStep[1]] == val && forall(p, 0, nd.Impl.buflen, implies(p != nd.Start + loc1*nd.OffsetStep[0] + loc2*nd.OffsetStep[1], nd.Impl[p] == old(nd.Impl[p])))
+//@   ensures [C03.set2-footprint,C01.set2-footprint] nd.Impl[nd.Start + loc1*nd.OffsetStep[0] + loc2*nd.OffsetStep[1]] == val && forall(p, 0, nd.Impl.buflen, implies(p != nd.Start + loc1*nd.OffsetStep[0] + loc2*nd.OffsetStep[1], nd.Impl[p] == old(nd.Impl[p])))
 
 //@ func (*nd{t}C).Get2(nd, loc1, loc2) returns (r)
 //@   safety C03
 //@   requires len(nd.OffsetStep) >= 2
 //@   requires 0 <= nd.Start + loc1*nd.OffsetStep[0] + loc2*nd.OffsetStep[1] && nd.Start + loc1*nd.OffsetStep[0] + loc2*nd.OffsetStep[1] < nd.Impl.buflen
 //@   assigns nothing
-//@   ensures [C03.get2-address] r == nd.Impl[nd.Start + loc1*nd.OffsetStep[0] + loc2*nd.OffsetStep[1]]
+//@   ensures [C03.get2-address,C01.get2-address] r == nd.Impl[nd.Start + loc1*nd.OffsetStep[0] + loc2*nd.OffsetStep[1]]
 
 //@ func (*nd{t}C).Set3(nd, loc1, loc2, loc3, val)
 //@   safety C03
@@ -80,14 +80,14 @@ package cdata
 //@   requires len(nd.OffsetStep) >= 3
 //@   requires 0 <= nd.Start + loc1*nd.OffsetStep[0] + loc2*nd.OffsetStep[1] + loc3*nd.OffsetStep[2] && nd.Start + loc1*nd.OffsetStep[0] + loc2*nd.OffsetStep[1] + loc3*nd.OffsetStep[2] < nd.Impl.buflen
 //@   assigns nd.Impl[*]
-//@   ensures [C03.set3-footprint] nd.Impl[nd.Start + loc1*nd.OffsetStep[0] + loc2*nd.OffsetStep[1] + loc3*nd.OffsetStep[2]] == val && forall(p, 0, nd.Impl.buflen, implies(p != nd.Start + loc1*nd.OffsetStep[0] + loc2*nd.OffsetStep[1] + loc3*nd.OffsetStep[2], nd.Impl[p] == old(nd.Impl[p])))
+//@   ensures [C03.set3-footprint,C01.set3-footprint] nd.Impl[nd.Start + loc1*nd.OffsetStep[0] + loc2*nd.OffsetStep[1] + loc3*nd.OffsetStep[2]] == val && forall(p, 0, nd.Impl.buflen, implies(p != nd.Start + loc1*nd.OffsetStep[0] + loc2*nd.OffsetStep[1] + loc3*nd.OffsetStep[2], nd.Impl[p] == old(nd.Impl[p])))
 
 //@ func (*nd{t}C).Get3(nd, loc1, loc2, loc3) returns (r)
 //@   safety C03
 //@   requires len(nd.OffsetStep) >= 3
 //@   requires 0 <= nd.Start + loc1*nd.OffsetStep[0] + loc2*nd.OffsetStep[1] + loc3*nd.OffsetStep[2] && nd.Start + loc1*nd.OffsetStep[0] + loc2*nd.OffsetStep[1] + loc3*nd.OffsetStep[2] < nd.Impl.buflen
 //@   assigns nothing
-//@   ensures [C03.get3-address] r == nd.Impl[nd.Start + loc1*nd.OffsetStep[0] + loc2*nd.OffsetStep[1] + loc3*nd.OffsetStep[2]]
+//@   ensures [C03.get3-address,C01.get3-address] r == nd.Impl[nd.Start + loc1*nd.OffsetStep[0] + loc2*nd.OffsetStep[1] + loc3*nd.OffsetStep[2]]
 
 // the constructor wraps the caller's buffer in a well-formed root view
 //@ func new{t}CArray(impl, dims) returns (r)
